@@ -835,6 +835,54 @@ def sample_called_methods(text):
             and isinstance(n.func.value, ast.Name) and n.func.value.id == "client"]
 
 
+STREAM_WRAPPERS = {"Iterable", "AsyncIterable", "Iterator", "AsyncIterator", "Generator", "AsyncGenerator"}
+
+
+def type_shape(s):
+    """a metadata type string -> (generic wrappers outermost first, innermost name): "Iterable[a.b.C]" -> (["Iterable"], "a.b.C")"""
+    wrappers, inner = [], (s or "").strip()
+    while "[" in inner and inner.endswith("]"):
+        wrappers.append(inner[:inner.index("[")].strip())
+        inner = inner[inner.index("[") + 1:-1].strip()
+    return wrappers, inner
+
+
+def is_stream_type(s):
+    return any(w.rsplit(".", 1)[-1] in STREAM_WRAPPERS for w in type_shape(s)[0])
+
+
+def sample_call_shape(text):
+    """how the sample uses its client call (AST): {"keywords": the keyword names passed to client.<m>(…),
+    "iterates": the value of the call (awaited or not) is the iterable of a for / async for loop,
+    "async_for": that loop is an `async for`, "awaited": the call is awaited}; None when there is not exactly one call"""
+    import ast
+    try:
+        tree = ast.parse(text)
+    except SyntaxError:
+        return None
+    calls = [n for n in ast.walk(tree) if isinstance(n, ast.Call) and isinstance(n.func, ast.Attribute)
+             and isinstance(n.func.value, ast.Name) and n.func.value.id == "client"]
+    if len(calls) != 1:
+        return None
+    call = calls[0]
+
+    def is_call_value(v):
+        return v is call or (isinstance(v, ast.Await) and v.value is call)
+    awaited = any(isinstance(n, ast.Await) and n.value is call for n in ast.walk(tree))
+    var = None
+    for n in ast.walk(tree):
+        if isinstance(n, ast.Assign) and len(n.targets) == 1 and isinstance(n.targets[0], ast.Name) and is_call_value(n.value):
+            var = n.targets[0].id
+    iterates, async_for = False, False
+    for n in ast.walk(tree):
+        if isinstance(n, (ast.For, ast.AsyncFor)):
+            it = n.iter
+            if is_call_value(it) or (var is not None and isinstance(it, ast.Name) and it.id == var) or \
+                    (var is not None and isinstance(it, ast.Await) and isinstance(it.value, ast.Name) and it.value.id == var):
+                iterates, async_for = True, isinstance(n, ast.AsyncFor)
+    return {"keywords": [k.arg for k in call.keywords], "iterates": iterates, "async_for": async_for, "awaited": awaited}
+
+
 def oneof_member_counts(facts, full, paths, where=""):
     """[(oneof path, [members assigned])] for every REAL oneof of every message the assigned paths touch"""
     out = []
@@ -1088,9 +1136,23 @@ def run_api(ctx, r, spec, label):
             nops.append({"op": "c14.names", "tags": all_tags, "tag": tag, "hash": h, "rpc": me["name"], "internal": False})
             flat = me["sigs"][0].split(",") if me.get("sigs") and not me.get("cs") else []
             nops.append({"op": "c14.params", "cs": bool(me.get("cs")), "input_type": "T", "flattened": [[n, "t"] for n in flat]})
+            # result type: the model decides presence and wrapping from the RPC's shape in the INPUT descriptors; the element
+            # type string (naming: C11's subject) is taken from the entry itself
+            rt = e.get("clientMethod", {}).get("resultType")
+            nops.append({"op": "c14.result", "void": is_void(me), "ss": bool(me.get("ss")), "cs": bool(me.get("cs")),
+                         "lro": bool(me.get("lro")), "paged": expected_form(me, facts) == "RequestPagedAll",
+                         "out_type": type_shape(rt)[1] if rt else "T"})
         nres = ctx.driver.ask(nops)
         for k, (e, pl, segs, lines, starts, ends, me) in enumerate(seg_meta):
-            mo, mp = nres[2 * k], nres[2 * k + 1]
+            mo, mp, mr = nres[3 * k], nres[3 * k + 1], nres[3 * k + 2]
+            ctx.traces += 1
+            rt = e.get("clientMethod", {}).get("resultType") or None
+            if mr.get("result_type") != rt:
+                ctx.disagree("T3:c14.result-type", f"{e.get('file')}: model result type {mr.get('result_type')!r} vs metadata {rt!r}", pl)
+            if not is_void(me) and not me.get("lro") and expected_form(me, facts) != "RequestPagedAll" and \
+                    mr.get("stream_shaped") != mr.get("yields_stream"):
+                ctx.disagree("T3:c14.result-type", f"{e.get('file')}: model: stream-shaped result type {mr.get('stream_shaped')} but the "
+                             f"calling form yields a stream: {mr.get('yields_stream')} (theorem metadata_result_type_stream_iff)", pl)
             text = "".join(lines)
             m = re.match(r"# \[START (.*)\]\s*$", lines[starts[0] - 1]) if len(starts) == 1 else None
             fn = re.findall(r"^(?:async )?def (sample_\w+)\(", text, re.M)
@@ -1123,7 +1185,7 @@ def run_api(ctx, r, spec, label):
             cm = e.get("clientMethod", {})
             items.append({"client": cm.get("client", {}).get("fullName", ""), "method": cm.get("shortName", ""),
                           "result_type": cm.get("resultType"),
-                          "param_types": {p.get("name"): p.get("type") for p in cm.get("parameters", []) if p.get("name") in ("request",)}})
+                          "param_types": {p.get("name"): p.get("type") for p in cm.get("parameters", []) if p.get("name") in ("request", "requests")}})
         out = libhost.run(root, [session, {"op": "client_method_info", "items": items}], timeout=600)
     finally:
         genrun.cleanup(root)
@@ -1212,6 +1274,36 @@ def run_api(ctx, r, spec, label):
                 for pn, ok in (info.get("param_types_ok") or {}).items():
                     if not ok:
                         bad.append(f"parameter {pn} type is not an importable class")
+                # the SHAPE of the result and of the request parameter, for every calling form: a stream on one side is a
+                # stream on the other (Iterable[X] / Awaitable[AsyncIterable[X]] / Iterator[X] vs a single X), and the sample
+                # file treats the call's value the same way
+                shape_bad = []
+                rt = cm.get("resultType") or ""
+                meta_stream = is_stream_type(rt)
+                if info.get("ret_stream") is not None and meta_stream != bool(info.get("ret_stream")):
+                    shape_bad.append(f"resultType {rt!r} {'is' if meta_stream else 'is not'} a stream type but {client_short}.{cm.get('shortName')} "
+                                     f"is annotated -> {'/'.join(info.get('ret_shape') or []) or 'single'}[{info.get('ret_leaf')}]")
+                use = sample_call_shape(out_files.get(f"{SDIR}/{fname}", ""))
+                if use is not None:
+                    ctx.count("sample_result_use", ("iterates " if use["iterates"] else "single ") + form)
+                    if meta_stream and not use["iterates"]:
+                        shape_bad.append(f"resultType {rt!r} is a stream type but the sample does not iterate the value of the call")
+                    if use["iterates"] and not meta_stream and form != "RequestPagedAll":
+                        shape_bad.append(f"the sample iterates the value of client.{cm.get('shortName')}(…) as a stream but resultType is {rt!r}")
+                    pnames = [p.get("name") for p in cm.get("parameters", [])]
+                    extra = [k_ for k_ in use["keywords"] if k_ not in pnames]
+                    if extra:
+                        shape_bad.append(f"the sample passes {extra} to client.{cm.get('shortName')}, metadata parameters are {pnames}")
+                ptypes = {p.get("name"): p.get("type") for p in cm.get("parameters", [])}
+                for pn, shp in (info.get("param_shapes") or {}).items():
+                    c_stream = any(w in STREAM_WRAPPERS for w in shp)
+                    if is_stream_type(ptypes.get(pn)) != c_stream:
+                        shape_bad.append(f"parameter {pn} type {ptypes.get(pn)!r} vs the signature's {'/'.join(shp) or 'single'}: stream on one side only")
+                for pn, same in (info.get("param_types_same") or {}).items():
+                    if not same:
+                        shape_bad.append(f"parameter {pn} type {ptypes.get(pn)!r} does not name the class the signature takes")
+                if shape_bad:
+                    ctx.fail("metadata-stream-shape", f"{fname} [{form}, {'async' if asy else 'sync'}]: " + "; ".join(shape_bad), pl)
         if cm.get("fullName") != f"{cm.get('client', {}).get('fullName')}.{cm.get('shortName')}":
             bad.append(f"clientMethod.fullName {cm.get('fullName')!r}")
         if cm.get("method", {}).get("fullName") != f"{fs['package']}.{ss['name']}.{me['name']}" or \
@@ -1339,7 +1431,10 @@ CLAIM = dict(
           "generate_sample_specs, CallingForm.method_default, generate_request_object, validate_and_transform_request, "
           "Snippet._parse_snippet_segments vs the model; T3 every emitted sample compiled and EXECUTED against loopback gRPC/HTTP "
           "servers, the received request decoded under the input descriptors and compared with the model, metadata vs file vs the "
-          "imported client (names, parameters, result type), docstring snippet vs the text between the tags; model-independent oracle."),
+          "imported client (names, parameters, result type; stream shape of the result and of the request parameter per calling form, sync "
+          "and asyncio: metadata vs return/parameter annotation vs whether the sample iterates the call's value; model: resultType is "
+          "Iterable[…] exactly for the server-/bidi-streaming forms), docstring snippet vs the text between the tags; "
+          "model-independent oracle."),
     technique="Lean 4 theorems over an executable model + translator bridge + differential T2/T3 with sample execution against loopback servers",
     design="7.14",
     note=("Jinja rendering of the sample is reached only through T3. A required message-typed field is populated iff its own "
